@@ -24,6 +24,7 @@ import (
 	"github.com/plgd-dev/go-coap/v3/net/blockwise"
 	"github.com/plgd-dev/go-coap/v3/net/responsewriter"
 	"github.com/plgd-dev/go-coap/v3/options"
+	"github.com/plgd-dev/go-coap/v3/options/config"
 	"github.com/plgd-dev/go-coap/v3/tcp"
 	tcpclient "github.com/plgd-dev/go-coap/v3/tcp/client"
 	udpclient "github.com/plgd-dev/go-coap/v3/udp/client"
@@ -78,6 +79,11 @@ type Pair struct {
 	// optional monitors around the server-side application handler
 	HandlerEnter func(r *pool.Message) any
 	HandlerExit  func(r *pool.Message, state any)
+	// HoldAfterHijack (udp client side): the receive path that handed a message to a waiting caller
+	// waits (bounded) until the application has released that message before it goes on - the
+	// interleaving in which a wrong "is it still mine?" decision of the library shows.
+	HoldAfterHijack atomic.Bool
+	hijackWait      sync.Map // *pool.Message -> chan struct{}
 }
 
 // StormLimit is the number of relayed datagrams after which a pair stops delivering.
@@ -269,7 +275,27 @@ func NewUDPPair(poolSize int, rule Rule) *Pair {
 			_ = w.SetResponse(code, message.AppOctets, rd, opts...)
 		})
 	})
-	cli := mk(cs, "cli", 40000, nil)
+	cli := sim.NewUDPConn(cs, sim.UDPOpts{Blockwise: true, SZX: blockwise.SZX64, BWTimeout: 3 * time.Second, Pool: pool.New(uint32(poolSize), 2048), Errors: p.errf("cli"),
+		Mutate: func(cfg *udpclient.Config) {
+			cfg.GetMID = func() int32 { return int32((40000 + 0xffff/2) & 0xffff) }
+			cfg.TransmissionMaxRetransmit = 2
+			cfg.ProcessReceivedMessage = func(req *pool.Message, cc *udpclient.Conn, handler config.HandlerFunc[*udpclient.Conn]) {
+				cc.ProcessReceivedMessageWithHandler(req, func(w *responsewriter.ResponseWriter[*udpclient.Conn], r *pool.Message) {
+					handler(w, r)
+					if p.HoldAfterHijack.Load() && r.IsHijacked() {
+						ch := make(chan struct{})
+						if prev, loaded := p.hijackWait.LoadOrStore(r, ch); loaded {
+							ch = prev.(chan struct{})
+						}
+						select {
+						case <-ch:
+						case <-time.After(400 * time.Microsecond):
+						}
+						p.hijackWait.Delete(r)
+					}
+				})
+			}
+		}})
 	p.Cli, p.Srv = cli, srv
 	p.observe = func(ctx context.Context, path string, cb func(*pool.Message)) (Observation, error) {
 		o, err := cli.Observe(ctx, path, cb)
@@ -514,6 +540,17 @@ func (p *Pair) Run(x Exchange, rnd *rand.Rand, hk *Hooks) Result {
 			hk.OnResponse(m)
 		}
 		p.Cli.ReleaseMessage(m)
+		if p.HoldAfterHijack.Load() {
+			ch := make(chan struct{})
+			if prev, loaded := p.hijackWait.LoadOrStore(m, ch); loaded {
+				ch = prev.(chan struct{})
+			}
+			select {
+			case <-ch:
+			default:
+				close(ch)
+			}
+		}
 	}
 	switch x.Kind {
 	case "get":
